@@ -328,7 +328,9 @@ def g_legacy(draw):
     probe, _ = gen.data_from(draw, p, gen.integer(draw, 1, 6), kind="bulk", r=r)
     st = gen.fractional_stats(draw, C, F, p["means"], p["variances"], r=r, zero_prob=gen.choice(draw, [0.0, 0.5]))
     st["log_likelihood"] = float(r.normal(-20, 10))
-    return {"p": p, "probe": probe, "stats": st, "flat": gen.boolean(draw)}
+    other = {"convergence_threshold": gen.choice(draw, [1e-2, 0.0, 0.3, 1e-8]), "max_fitting_steps": gen.choice(draw, [7, 0, 1, 33]),
+             "update_means": gen.boolean(draw), "update_variances": gen.boolean(draw), "update_weights": gen.boolean(draw)}
+    return {"p": p, "probe": probe, "stats": st, "flat": gen.boolean(draw), "other": other}
 
 
 @REG.obligation("legacy_files_equal_current_format", g_legacy, quick=250, thorough=4000)
@@ -360,6 +362,17 @@ def c_legacy(ctx, case):
         g.save(current)
         a = GMMMachine.from_hdf5(legacy)
         b = GMMMachine.from_hdf5(current)
+        # what a file loads to is a function of the file: reading another machine file in between (one that records
+        # other training settings) changes nothing about a second reading of the legacy file
+        other = tmp.new()
+        sut.make_gmm(p, **case.get("other", {})).save(other)
+        GMMMachine.from_hdf5(other)
+        a2 = GMMMachine.from_hdf5(legacy)
+        names = ("trainer", "convergence_threshold", "max_fitting_steps", "update_means", "update_variances", "update_weights")
+        for nm in names:
+            ctx.check(getattr(a, nm) == getattr(a2, nm), "legacy file read again after another machine file: %s is %r, was %r"
+                      % (nm, getattr(a2, nm), getattr(a, nm)), "legacy:reread:" + nm)
+        ctx.check(bool(a == a2), "legacy file read twice gives unequal machines", "legacy:reread:eq")
         for name in ("weights", "means", "variances"):
             x, y = np.asarray(getattr(a, name)), np.asarray(getattr(b, name))
             ctx.check(x.shape == y.shape and np.array_equal(x, y), "legacy %s differ from the current-format counterpart" % name,
